@@ -201,9 +201,9 @@ type c06Probe struct {
 
 func checkC06(tier string) {
 	r := mon.New("C06", tier, "exploration")
-	r.Rule = "credential configurations GLYPH_JWT_SECRET x GLYPH_API_KEYS (6 x 6 incl. unset/blank/padded) x declared auth type {jwt, apikey, JWT, ApiKey, basic, oauth} x ~33 header shapes (absent, wrong, prefix/suffix of the secret, other type's credential, duplicates, casing, whitespace, NUL, 10 kB, forged forwarding headers, canonical forms) x {GET, POST} x {compiled, interpreted, interpreted+provider side-effect counter}; plus PRNG-generated secrets / key lists (1-40 characters over letters, digits and -_.=+/:, scheme look-alikes, non-ASCII) probed with near-miss mutations of each credential (one deletion / insertion / substitution / case flip, prefixes, doubled, reversed) in both header positions; lockout histories of k failures then a valid request; distinct = (config, mode, route, shape); non-trivial = a protected route with a non-absent header shape or an unset/blank configuration"
+	r.Rule = "credential configurations GLYPH_JWT_SECRET x GLYPH_API_KEYS (10 x 6 incl. unset/blank/padded and list-looking secrets such as \",\" and \"a,b\": the secret is one string, never a list) x declared auth type {jwt, apikey, JWT, ApiKey, basic, oauth} x ~33 header shapes (absent, wrong, prefix/suffix of the secret, other type's credential, duplicates, casing, whitespace, NUL, 10 kB, forged forwarding headers, canonical forms) x {GET, POST} x {compiled, interpreted, interpreted+provider side-effect counter}; plus PRNG-generated secrets / key lists (1-40 characters over letters, digits and -_.=+/:, scheme look-alikes, non-ASCII) probed with near-miss mutations of each credential (one deletion / insertion / substitution / case flip, prefixes, doubled, reversed) in both header positions; lockout histories of k failures then a valid request; distinct = (config, mode, route, shape); non-trivial = a protected route with a non-absent header shape or an unset/blank configuration"
 	str := func(s string) *string { return &s }
-	jwts := []*string{nil, str(""), str(" "), str("s3cr3t"), str(" s3cr3t "), str("a b")}
+	jwts := []*string{nil, str(""), str(" "), str("s3cr3t"), str(" s3cr3t "), str("a b"), str(","), str(" , ,"), str("a,b"), str(",s3cr3t")}
 	keys := []*string{nil, str(""), str(" , "), str("k1"), str("k1, k2"), str(",k1,")}
 	var jobs []HJob
 	type meta struct {
